@@ -57,6 +57,18 @@ CHECKS = {
         note="Bounds: <=2 steps x <=3 substeps x maxiter 2 (3008 behaviours); ramps: all level sequences of length <=3 (quick) / <=4 (thorough) plus "
              "4 longer unload/reload cycles; 8-cell mesh; resolution 2^-20. Viscoelastic models are not part of this property's history laws.",
         ref="5/C15"),
+    "C20": dict(
+        engine="Solver",
+        technique="frame log of Solver.tla (model-checked; seeded frame-skip fault rejected) + trace validation of jobs writing files + "
+                  "TLA+ law module FileIO.tla evaluated by TLC on written-vs-read-back contents; replay of every SolverMC behaviour with file output",
+        text="TLC checks on the model that exactly one frame follows each yielded substep, in order, with times 0,1,2,... and none after a failure; "
+             "every Frame event of real and replayed jobs must match that action; the files themselves are read back and TLC decides: frame count = "
+             "number of results predicted by the model behaviour, frame displacement bit-identical to the substep's displacement, documented "
+             "cell data (quadrature means of F and logarithmic strain vs an independent evaluation), custom point/cell data, mesh round trips "
+             "(13 cell types x vtk/vtu/xdmf: points bit-exact incl. 2D padding/cut, cells, cell type), one shared point array for containers, "
+             "saved displacements/reaction forces unchanged.",
+        note="Files are read back with meshio (trusted). XDMF has no Lagrange cell types in meshio (excluded). Log-strain cell data at 2^-20 +- 8 ulp.",
+        ref="5/C20"),
 }
 
 NOT_YET = {}
